@@ -37,15 +37,16 @@ ASSUMPTIONS = [
     "function keys F1-F10 are only typed after KEY n,\"\" (soft-key macro expansion into INKEY$ is "
     "outside the statement)",
     "INPUT$(n) and LINE INPUT are only issued when the model says enough suitable keys are waiting "
-    "(otherwise they would block); LINE INPUT only over printable keys terminated by Enter",
+    "(otherwise they would block); LINE INPUT only over printable keys terminated by Enter, and "
+    "compared modulo trailing blanks (the line editor trims them)",
     "the slot left of the head that GW-BASIC overwrites with CR on overflow, and all slots outside "
     "head..tail, are not asserted",
     "scancode bytes are asserted only for keys typed with a scancode (not for pasted keys)",
     "Ctrl+C, Ctrl+Break, Pause, F12 and Alt+keypad are not typed (they are interrupts / emulator "
     "keys, not buffered keystrokes)",
     "after a clearing POKE the check reads INKEY$ until it returns \"\" (at most 40 reads): on a "
-    "correct implementation that is one empty read; on the pinned tree it drains the stale entries "
-    "so the search continues behind the known defect",
+    "correct implementation that is one empty read; before fix 1579f054 it drained the stale "
+    "entries (buckets clear.*) so that the search continued behind that defect",
 ]
 TECHNIQUE = ("model-based stateful testing: Hypothesis op lists vs. 16-slot ring model, invariant "
              "after every step; harness-owned key injection at statement boundaries; exhaustive "
@@ -198,12 +199,26 @@ class Runner(object):
         v = self.s.get('A$')
         return bytes(v)
 
-    def check_invariant(self, after):
+    def peek2(self, addr):
+        """(PEEK(addr), PEEK(addr+1)) in one evaluation."""
+        o = self.s.evaluate(b'PEEK(%d)+256*PEEK(%d)' % (addr, addr + 1))
+        v = o.value
+        if o.kind != 'ok' or o.errors or not isinstance(v, (int, float)) or v != int(v) or not (
+                0 <= v <= 65535):
+            _fail_outcome(self.res, o, 'PEEK(%d)+256*PEEK(%d) -> %r' % (addr, addr + 1, v))
+            self.dead = True
+            return None, None
+        v = int(v)
+        return v % 256, v // 256
+
+    def check_invariant(self, after, slots=True):
+        """Pointers always; the slots of the waiting keys unless the op only removed keys (reads
+        do not write slots, and every waiting slot was checked when it was filled)."""
         if self.dead or self.unflushed:
             return
         m = self.m
         want = [(KBASE + 2 * m.head) % 256, 0, (KBASE + 2 * m.tail) % 256, 0]
-        got = [self.peek(a) for a in (1050, 1051, 1052, 1053)]
+        got = list(self.peek2(1050) + self.peek2(1052))
         if self.dead:
             return
         if got != want:
@@ -211,10 +226,11 @@ class Runner(object):
                           'expects %r; trace %r' % (after, got, m.head, m.tail, want, self.trace[-12:]))
             self.dead = True
             return
+        if not slots:
+            return
         for i, (data, scan) in enumerate(m.waiting):
             idx = (m.head + i) % RING
-            c = self.peek(1054 + 2 * idx)
-            sc = self.peek(1055 + 2 * idx)
+            c, sc = self.peek2(1054 + 2 * idx)
             if self.dead:
                 return
             if c != data[0]:
@@ -326,7 +342,8 @@ class Runner(object):
         self.trace.append(('lineinput', got))
         self.res.label('lineinput-done')
         self.reads_nonempty += 1
-        if got != want:
+        # the line editor drops trailing blanks of the entered line (as GW-BASIC does)
+        if got.rstrip(b' ') != want.rstrip(b' '):
             self.res.fail('lineinput.mismatch', 'LINE INPUT returned %r, model %r; trace %r' % (
                 got, want, self.trace[-14:]))
             self.dead = True
@@ -458,7 +475,7 @@ def check_case(case):
             if r.dead:
                 break
             OPS[op['op']](r, op)
-            r.check_invariant(op['op'])
+            r.check_invariant(op['op'], slots=op['op'] not in ('inkey', 'input$', 'lineinput'))
         if not r.dead:
             r.flush()
             r.check_invariant('end')
@@ -514,6 +531,11 @@ def strat_ops(max_ops):
         # bursts make wrap-around and overflow frequent
         st.builds(lambda ks: {'op': 'burst', 'ks': ks}, st.lists(k, min_size=3, max_size=18)),
         st.builds(lambda n: {'op': 'reads', 'n': n}, st.integers(2, 17)),
+        # a typed line: drain, printable keys, Enter, LINE INPUT
+        st.builds(lambda ks, dr: {'op': 'line', 'ks': ks, 'drain': dr},
+                  st.lists(st.sampled_from(_PRINT), min_size=0, max_size=8), st.booleans()),
+        # advance the ring position: type n keys and read them all back
+        st.builds(lambda n, k0: {'op': 'adv', 'n': n, 'k0': k0}, st.integers(1, 15), k),
     )
 
     def expand(ops):
@@ -525,10 +547,20 @@ def strat_ops(max_ops):
                            for i, x in enumerate(ks))
             elif o['op'] == 'reads':
                 out.extend({'op': 'inkey'} for _ in range(o['n']))
+            elif o['op'] == 'line':
+                if o['drain']:
+                    out.extend({'op': 'inkey'} for _ in range(15))
+                out.extend({'op': 'key', 'k': x, 'flush': True} for x in o['ks'])
+                out.append({'op': 'key', 'k': _ENTER, 'flush': True})
+                out.append({'op': 'lineinput'})
+            elif o['op'] == 'adv':
+                out.extend({'op': 'key', 'k': (o['k0'] + 7 * i) % NKEYS, 'flush': i % 3 != 1}
+                           for i in range(o['n']))
+                out.extend({'op': 'inkey'} for _ in range(o['n']))
             else:
                 out.append(o)
         return out[:max_ops]
-    return st.lists(op, min_size=1, max_size=max_ops // 2).map(expand)
+    return st.lists(op, min_size=3, max_size=max_ops // 2).map(expand)
 
 
 def strat_case_q():
@@ -540,10 +572,22 @@ def strat_case_t():
 
 
 def gen_positions(shard, nshards, tier, seed):
+    import os
+    try:
+        sc = float(os.environ.get('VERIF_SCALE', '1'))
+    except ValueError:
+        sc = 1.0
+    step = max(1, int(round(1.0 / sc))) if 0 < sc < 1 else 1    # development runs only
+    for j, case in enumerate(_gen_positions(shard, nshards, tier, seed)):
+        if j % step == 0:
+            yield case
+
+
+def _gen_positions(shard, nshards, tier, seed):
     """Exhaustive small family: ring position (keys typed and read before, 0..40) x fill level
     (0..15, and 16/17 = overflow attempts) x what happens then (clear / drain / peek)."""
     i = 0
-    laps = 41 if tier == 'thorough' else 34
+    laps = 41 if tier == 'thorough' else 21
     for pre in range(laps):
         for fill in range(0, 18):
             for then in ('clear', 'drain', 'clear-type'):
@@ -576,8 +620,8 @@ def gen_positions(shard, nshards, tier, seed):
 
 def units(tier):
     return [
-        Unit('positions', 'enum', shards=16, gen=gen_positions, exhaustive=True),
-        Unit('histories', 'hyp', shards=16, examples={'quick': 60, 'thorough': 3000},
+        Unit('positions', 'enum', shards={'quick': 8, 'thorough': 16}, gen=gen_positions, exhaustive=True),
+        Unit('histories', 'hyp', shards={'quick': 8, 'thorough': 16}, examples={'quick': 100, 'thorough': 1500},
              strategy=strat_case_q if tier == 'quick' else strat_case_t),
     ]
 
@@ -588,11 +632,11 @@ def _keys(text):
 
 
 REGRESSIONS = [
-    # DESIGN finding 13: clearing idiom with 5 keys waiting -> 16 stale reads
+    # fixed 1579f054 (DESIGN finding 13): clearing idiom with 5 keys waiting -> 16 stale reads
     {'ops': _keys('abcde') + [{'op': 'clear'}, {'op': 'inkey'}], 'nomacro': False},
     # the same on an empty, untouched buffer
     {'ops': [{'op': 'clear'}, {'op': 'inkey'}], 'nomacro': False},
-    # after more than 16 keystrokes the POKE leaves the waiting keys in place
+    # fixed 1579f054: after more than 16 keystrokes the POKE left the waiting keys in place
     {'ops': _keys('abcdefghijkl') + [{'op': 'inkey'}] * 12 + _keys('mnopqrstu') + [{'op': 'inkey'}] * 6
      + [{'op': 'clear'}, {'op': 'inkey'}], 'nomacro': False},
     # plain FIFO with overflow and wrap-around
@@ -600,4 +644,23 @@ REGRESSIONS = [
      + _keys('rstuvwxyz') + [{'op': 'inkey'}] * 15, 'nomacro': True},
 ]
 
-KILLS = []
+KILLS = [
+    "keyboard.append: capacity test `>= ring_length-1` -> `>= ring_length` -> ptr.mismatch (16th key accepted)",
+    "keyboard._ring_index: `% ring_length` -> `% (ring_length-1)` -> slot.char",
+    "keyboard.getc: `_start += 1` dropped -> ptr.mismatch / inkey.mismatch",
+    "keyboard.append: overflow CR written at `_start` instead of `_start-1` -> slot.char (head key overwritten)",
+    "keyboard.stop: +1 -> ptr.mismatch at start",
+    "machine._get_low_memory: PEEK(1052) returns start -> ptr.mismatch",
+    "machine._get_low_memory: odd/even slot bytes swapped -> slot.char",
+    "keyboard.append: scancode stored as None -> slot.scancode",
+    "keyboard.getc: returns the newest key (LIFO) -> inkey.mismatch",
+    "revert of fix 1579f054 (original ring_set_boundaries) -> clear.stale-ring16, clear.keys-remain",
+    "keyboard.ring_set_boundaries (fixed version): `_start = len - length - 1` -> clear.other, "
+    "clear.keys-remain",
+    "machine._set_low_memory: POKE 1050 without subtracting the buffer offset -> clear.other, "
+    "clear.keys-remain",
+    "SURVIVES (equivalent for this property): ring_set_boundaries without the rotation "
+    "`ring[newstop:] + ring[:newstop]` - only slots outside head..tail change, which the "
+    "statement does not constrain",
+    "(positions unit run with VERIF_SCALE=0.15, every 7th case)",
+]
